@@ -363,7 +363,8 @@ fn universe_names() -> Vec<ElementName> {
 }
 
 fn positions(len: usize) -> Vec<usize> {
-    let mut p = vec![0, len / 2, len, len + 1];
+    // every position of a short content list (a move within the parent by two or more places needs one in the middle)
+    let mut p: Vec<usize> = if len <= 4 { (0..=len + 1).collect() } else { vec![0, 1, len / 2, len - 1, len, len + 1] };
     p.sort();
     p.dedup();
     p
@@ -830,8 +831,12 @@ pub struct PreState {
     pub canon: Canon,
     pub canon_other: Canon,
     pub refs: Vec<(Element, String, Option<Element>)>,
+    /// the same for the other model: reference element, its text, the element it designated
+    pub refs_other: Vec<(Element, String, Option<Element>)>,
     pub paths: HashMap<String, Element>,
     pub live: Vec<Element>,
+    /// children (elements only) of every live element, for order checks after a move
+    pub children: Vec<Vec<Element>>,
 }
 
 pub fn pre_state(w: &World) -> PreState {
@@ -851,7 +856,14 @@ pub fn pre_state(w: &World) -> PreState {
         .collect();
     let idx: HashMap<Element, usize> = l.iter().enumerate().map(|(i, e)| (e.clone(), i)).collect();
     let parents: Vec<Option<usize>> = l.iter().map(|e| e.parent().ok().flatten().and_then(|p| idx.get(&p).copied())).collect();
-    PreState { file_names, file_texts, membership, parents, canon: canon(&w.m), canon_other: canon(&w.other), refs, paths, live: l }
+    let paths_other: HashMap<String, Element> = expected_paths(&w.other).into_iter().collect();
+    let refs_other = live(&w.other)
+        .iter()
+        .filter(|e| e.is_reference())
+        .filter_map(|e| e.character_data().and_then(|c| c.string_value()).map(|t| (e.clone(), t.clone(), paths_other.get(&t).cloned())))
+        .collect();
+    let children: Vec<Vec<Element>> = l.iter().map(|e| e.sub_elements().collect()).collect();
+    PreState { file_names, file_texts, membership, parents, canon: canon(&w.m), canon_other: canon(&w.other), refs, refs_other, paths, live: l, children }
 }
 
 /// relation of the elements involved, for classification of spurious lock conflicts
@@ -961,22 +973,42 @@ pub fn transition_oracles(w: &World, pre: &PreState, op: &Op, out: &Outcome) -> 
                 }
             }
         }
-        // C06: move to another model: references inside the subtree that pointed into it designate the moved elements
-        if let Op::Move(i, Src::Foreign(_)) = op {
-            if let (Some(dst), Outcome::Ok(Some(mv))) = (pre.live.get(*i), out) {
-                let _ = dst;
-                let sub: Vec<Element> = walk_from(mv).into_iter().map(|(_, e)| e).collect();
-                let subset: HashSet<Element> = sub.iter().cloned().collect();
-                for r in sub.iter().filter(|e| e.is_reference()) {
-                    if let Ok(t) = r.get_reference_target() {
-                        let _ = t;
-                    }
-                    if let Some(CharacterData::String(t)) = r.character_data() {
-                        if let Some(target) = w.m.get_element_by_path(&t) {
-                            // fine when it designates something inside the moved subtree or an existing element
-                            let _ = subset.contains(&target);
+        // C06: move to another model (either direction): a reference inside the moved subtree that designated an element of
+        // the moved subtree (the moved element itself included) designates the same element afterwards
+        let cross: Option<(&Vec<(Element, String, Option<Element>)>, &AutosarModel)> = match op {
+            Op::Move(_, Src::Foreign(_)) => Some((&pre.refs_other, &w.m)),
+            Op::MoveOut(..) => Some((&pre.refs, &w.other)),
+            _ => None,
+        };
+        if let (Some((refs_before, dest_model)), Outcome::Ok(Some(mv))) = (cross, out) {
+            let subset: HashSet<Element> = walk_from(mv).into_iter().map(|(_, e)| e).collect();
+            let dest_paths: HashMap<String, Element> = expected_paths(dest_model).into_iter().collect();
+            for (r, old_text, old_target) in refs_before {
+                if !subset.contains(r) {
+                    continue;
+                }
+                if let Some(t) = old_target {
+                    if subset.contains(t) {
+                        let new_text = r.character_data().and_then(|c| c.string_value());
+                        if new_text.as_ref().and_then(|nt| dest_paths.get(nt)) != Some(t) {
+                            f.push(fd("C06", format!("{kind}|reference-inside-moved-subtree-lost-its-target"), format!("{old_text} -> {new_text:?}")));
                         }
                     }
+                }
+            }
+        }
+        // C03: a move to a position puts the element exactly there and keeps the order of all other children
+        if let (Op::MoveAt(i, src, p), Outcome::Ok(Some(mv))) = (op, out) {
+            if let Some(dst) = pre.live.get(*i) {
+                let now: Vec<Element> = dst.sub_elements().collect();
+                let before: Vec<Element> = pre.children.get(*i).cloned().unwrap_or_default().into_iter().filter(|e| e != mv).collect();
+                let others_now: Vec<Element> = now.iter().filter(|e| *e != mv).cloned().collect();
+                if others_now != before {
+                    f.push(fd("C03", format!("{kind}|order-of-the-other-children-changed"), format!("{src:?} to position {p}")));
+                }
+                // `p` counts content items; the seeds' parents of movable elements hold no text items, so it is the element index
+                if dst.content_item_count() == now.len() && mv.position() != Some(*p) && mv.position() != Some((*p).min(now.len() - 1)) {
+                    f.push(fd("C03", format!("{kind}|element-not-at-the-requested-position"), format!("{src:?} requested {p}, is at {:?}", mv.position())));
                 }
             }
         }
